@@ -55,7 +55,8 @@ RecvViol(e) ==
   IN   (IF e.val /\ ~e.intact THEN {"C07_sample_altered"} ELSE {})
   \cup (IF item \notin Range(ItemSeq({1, 2, 3})) THEN {"C07_sample_never_written"} ELSE {})
   \cup (IF e.val /\ item \in Range(sofar) THEN {"C07_sample_delivered_twice"} ELSE {})
-  \cup (IF e.val /\ item < SMaxOf(Values(sofar)) THEN {"C07_out_of_order"} ELSE {})
+  \* (order is promised for reliable traffic; a best-effort reader may be handed a late repair meant for a reliable sibling)
+  \cup (IF e.val /\ item < SMaxOf(Values(sofar)) /\ cfg.wrel /\ (e.who = "R2" \/ cfg.rrel) THEN {"C07_out_of_order"} ELSE {})
 
 (* ------------------------------------- delivery judged in a loss-free suffix *)
 \* Known finding S3 seen from outside: the writer's sequence number of written[i] is i (one writer, every write and
